@@ -5,6 +5,7 @@ mod c09;
 mod c14;
 mod c15;
 mod c16;
+mod c17;
 mod clock;
 mod disk;
 mod engine;
@@ -103,6 +104,23 @@ fn plan(prop: &str, tier: &str, seed: u64) -> Plan {
             assumptions: vec!["the 16-bit name hash is restated in the harness only to build colliding inputs, not as an oracle".into()],
             extra: serde_json::json!({}),
         },
+        "C17" => {
+            let mut batches = c17::batches(tier, seed);
+            let (t, sd) = (tier.to_string(), seed);
+            batches.push(runner::Batch {
+                name: "the same batches in the fixed-buffer build (features std,lfn,unicode; no alloc)".into(),
+                runs: 1,
+                f: Box::new(move |_| runner::child_outcome(&runner::alt_bin("noalloc"), &["child".into(), "C17".into(), "--tier".into(), t.clone(), "--seed".into(), sd.to_string()], "noalloc")),
+            });
+            Plan {
+                batches,
+                level: "fault_enumeration",
+                rule: "one evaluation = one directory region overwritten with crafted slots (corrupt_at_rest fault) on a valid volume, then iterated through the library with every accessor called under catch_unwind and a device-call budget, compared with the independent slot decoder where its verdict is clear-cut; distinct = distinct injected directories".into(),
+                exhaustive: true,
+                assumptions: vec!["exhaustive=true refers to (a) the order/flag/checksum pattern space for runs of <= 3 slots and (b) every value of every byte of a 3-slot entry; slot soup is seeded".into(), "entries whose attribute byte has the low nibble 0xF but bits 4/5 set, or whose order byte has bit 5 set, are checked for totality only (the specification and the library classify them differently)".into()],
+                extra: serde_json::json!({"builds": ["std+alloc+lfn+unicode (in-process)", "std+lfn+unicode (child process, fixed long-name buffer)"]}),
+            }
+        }
         "C09" => Plan {
             batches: c09::batches(tier, seed),
             level: "fault_enumeration",
@@ -162,8 +180,17 @@ fn main() {
             for (i, s) in rep.steps.iter().enumerate() {
                 println!("  {:3} c{} {:?}{}", i, s.c, s.op, s.hard_at.map_or(String::new(), |k| format!(" !hard@{}", k)));
             }
+            if let Some((k, tag)) = rep.kind.clone().split_once('@') {
+                let mut r2 = rep.clone();
+                r2.kind = k.to_string();
+                let tmp = format!("{}.child.json", path);
+                std::fs::write(&tmp, serde_json::to_string(&r2).unwrap()).unwrap();
+                let st = std::process::Command::new(runner::alt_bin(tag)).args(["replay", &tmp]).status();
+                let _ = std::fs::remove_file(&tmp);
+                std::process::exit(st.ok().and_then(|s| s.code()).unwrap_or(2));
+            }
             if rep.kind != "engine" {
-                let out = c06::replay(&rep.kind, rep.seed).or_else(|| c07::replay(&rep.kind, rep.seed)).or_else(|| c14::replay(&rep.kind, rep.seed));
+                let out = c06::replay(&rep.kind, rep.seed).or_else(|| c07::replay(&rep.kind, rep.seed)).or_else(|| c14::replay(&rep.kind, rep.seed)).or_else(|| c17::replay(&rep.kind, rep.seed));
                 match out {
                     Some(o) => match o.violation {
                         Some((v, _)) => {
@@ -193,6 +220,15 @@ fn main() {
                     std::process::exit(0);
                 }
             }
+        }
+        "child" => {
+            // same batches, summary on stdout (used for the alternative feature builds)
+            let prop = args.get(2).cloned().unwrap_or_else(|| usage());
+            let batches = match prop.as_str() {
+                "C17" => c17::batches(&tier, seed),
+                _ => usage(),
+            };
+            runner::child_main(batches);
         }
         "debug" => {
             let prop = args.get(2).cloned().unwrap_or_else(|| usage());
